@@ -49,7 +49,8 @@ pub struct MetaCase {
     pub extras: Vec<(usize, Extra)>,
     pub handler: [u8; 4],
     pub full_meta: bool,
-    /// 0 = udta/meta (normal), 1 = no udta at all, 2 = udta without meta, 3 = meta directly in moov
+    /// 0 = udta/meta (normal), 1 = no udta at all, 2 = udta without meta, 3 = meta directly in moov,
+    /// 4 = udta/meta whose only child is the handler (no item list box at all)
     pub placement: u8,
     /// 0 = non-fragmented file; 1 = fragmented movie, one stream; 2 = fragmented movie, the accessors are asked on the
     /// reader derived for a separately opened media segment (read_header on the init segment, then read_fragment_header)
@@ -148,9 +149,9 @@ fn item_nodes(c: &MetaCase) -> Vec<Node> {
 pub fn build(c: &MetaCase) -> (Vec<u8>, Option<Vec<u8>>) {
     let hd = hdlr(0, 0, &c.handler, "");
     let il = ilst(item_nodes(c));
-    let mt = meta(c.full_meta, vec![hd, il]);
+    let mt = if c.placement == 4 { meta(c.full_meta, vec![hd]) } else { meta(c.full_meta, vec![hd, il]) };
     let mut extra = match c.placement {
-        0 => vec![udta(vec![mt])],
+        0 | 4 => vec![udta(vec![mt])],
         1 => vec![],
         2 => vec![udta(vec![Node::leaf(b"name", b"x".to_vec())])],
         _ => vec![mt],
@@ -290,6 +291,12 @@ pub fn run(tier: Tier, seed: u64) -> i32 {
         Some(YearEnc::Text("20080101120000".into())),
         Some(YearEnc::Text("99999999999999999999999".into())),
         Some(YearEnc::Text("0002008".into())),
+        // text that is not a decimal number, of exactly the length of the binary form: no year (a text-typed item is
+        // never read as the binary form)
+        Some(YearEnc::Text("199x".into())),
+        Some(YearEnc::Text("-500".into())),
+        Some(YearEnc::Text("MMXX".into())),
+        Some(YearEnc::Text("202\0".into())),
         Some(YearEnc::Binary(0)),
         Some(YearEnc::Binary(2024)),
         Some(YearEnc::Binary(u32::MAX)),
@@ -378,6 +385,12 @@ pub fn run(tier: Tier, seed: u64) -> i32 {
             for placement in 1..=3u8 {
                 judge(&MetaCase { tags: tags.clone(), order: vec![0, 1, 2, 3], extras: vec![], handler: *b"mdir", full_meta: true, placement, delivery: 0, large_nth: None }, &mut l);
             }
+            // a meta box that holds nothing but its handler, in both meta forms and under every handler
+            for h in handlers {
+                for full in [true, false] {
+                    judge(&MetaCase { tags: tags.clone(), order: vec![0, 1, 2, 3], extras: vec![], handler: h, full_meta: full, placement: 4, delivery: 0, large_nth: None }, &mut l);
+                }
+            }
             if !big(tags) || th {
                 // every box of the user-data subtree in turn with the 64-bit size header
                 for full in [true, false] {
@@ -414,7 +427,7 @@ pub fn run(tier: Tier, seed: u64) -> i32 {
     ev.set("exhaustive", json!(true));
     ev.set("enumeration", json!({"tag_sets": n_tags, "title_payloads": "absent + lengths 0,1,4,5,300,70000 (valid UTF-8 incl. 2-,3-,4-byte characters) + 6 edge texts (NUL / blank / newline / BOM at either end)", "year": "absent + text 0,7,2024,4294967295, 0002008 and three decimal texts beyond 32 bits (no year) + binary 0,2024,2^32-1",
         "poster": "absent + 0,1,300,70000 bytes (type 13)", "summary": "absent + 0,5,300 bytes + the 6 edge texts", "deliveries": ["non-fragmented file", "fragmented, one stream", "fragmented, reader derived by read_fragment_header from the init segment's reader"], "orders": orders.len(), "extra_item_sets": extra_sets.len(), "handlers": ["mdir", "mdta", "0000"], "meta_forms": ["FullBox", "QuickTime (no version word)"],
-        "placements": ["udta/meta", "no udta", "udta without meta", "meta directly in moov"],
+        "placements": ["udta/meta", "no udta", "udta without meta", "meta directly in moov", "udta/meta with the handler as its only child"],
         "header_forms": "every box of the user-data subtree in turn with the 64-bit size header", "non_itunes_lists": "under handlers mdta/zero: title item without data box, poster with type 14, child bytes that are not boxes"}));
     ev.set("outcome_classes", Value::Object(l.outcomes.iter().map(|(k, v)| (k.clone(), json!(v))).collect()));
     ev.set("samples", json!([
